@@ -140,6 +140,16 @@ def run(tier):
         ok = sql.startswith(text) and all(c.isspace() or c == ';' for c in sql[len(text):])
         return (not ok), {'sql': sql, 'stripped': text}, 'strip', 'parse_sql strips more than trailing whitespace/semicolons from %r' % sql
     ch_obligations(run, HARNESS, [dict(fn='strip_unit', twin='strip_unit_reach', replay=replay_strip)], cond_to=120)
+    try:
+        from harness import c05skip
+        c05skip.add(run, tier)
+        run.functions.append('<Lexer>.tokenize with the live ignore_* rules (LEXZ3 translation of each rule; real lexer on every text)')
+        run.assumptions.append('what a lexer may skip between tokens: blanks, `;`, `-- ..` to the end of the line, `/* .. */` to the first `*/` (reference written from the comment syntax); '
+                               'z3 proposes members of each ignore rule outside that reference (<= 12 printable characters, 3 per rule), the real lexer decides on accepted statements + member, '
+                               'and on 40 statement tails (`; comment junk comment` ..) x 5 statements')
+    except Exception as e:  # noqa
+        import traceback
+        run.error('lexer-skip part crashed: %r %s' % (e, traceback.format_exc()[-300:]))
     run.finish()
 
 
@@ -239,6 +249,9 @@ def replay(path):
         rep = replay_history(r['replay']['history'], r['replay']['dialect'])
         print('native replay now (same calls in a fresh interpreter): last text accepted=%s' % rep)
         return 1 if rep else 0
+    if r['replay'].get('skip'):
+        from harness import c05skip
+        return c05skip.replay(r)
     f = r['replay'].get('finding')
     if f:
         rep, info = replay_finding(f)
